@@ -87,8 +87,9 @@ async def worker_serve(
         exception = lifespan_task.exception()
         if exception is not None:
             raise exception
-    elif lifespan.startup_failure is not None:
-        # The app swallowed the error raised into its send call
+    if lifespan.startup_failure is not None:
+        # The app swallowed the error raised into its send call (and may
+        # even have returned since)
         lifespan_task.cancel()
         raise LifespanFailureError("startup", lifespan.startup_failure)
 
